@@ -220,6 +220,21 @@ fn enumerate(ctx: &mut Ctx, mode: Mode) {
             }
         }
     }
+    // (a'') the literal lattice: tricky literal lexemes in every position where a literal is evaluated
+    let lits = crate::text::literal_texts();
+    for (ci, chunk) in lits.chunks(100).enumerate() {
+        ctx.case(
+            || json!({"space":"literals-in-context","chunk":ci,"first":chunk[0].0}),
+            |ctx| {
+                let db = new_db();
+                for (name, text) in chunk {
+                    ctx.distinct(text);
+                    ctx.count("literal_texts", 1);
+                    check_text(ctx, mode, &db, text, &|| json!({"literal-in-context":name}));
+                }
+            },
+        );
+    }
     // (c) nesting families × every depth 1..200
     for (name, f) in nesting_families() {
         for depth in 1..=200usize {
